@@ -23,6 +23,10 @@ def opt_sets():
         # two levels, thresholds over links and sublayouts, several delegating functionaries
         {"p_sub": 0.5, "max_depth": 2, "threshold_heavy": True, "sub_variants": SUB_BAD, "vary_keys": False,
          "link_variants": ["honest"] * 6 + ["disagree_prod", "disagree_mat", "sig_nibble", "unsigned"]},
+        # thresholds over a mix of links and honest sublayouts where one plain link dissents in its PRODUCTS only
+        # (the sublayout's summary and the other links agree): agreement is checked on summaries, on both maps
+        {"p_sub": 0.5, "max_depth": 1, "threshold_heavy": True, "vary_keys": False, "sub_variants": ["honest"],
+         "link_variants": ["honest", "honest", "disagree_prod"]},
         # three levels, default deviation catalogue everywhere (sub-links tampered / missing / misplaced)
         {"p_sub": 0.45, "max_depth": 3},
         # sub-rules violated, sub-inspections failing
